@@ -306,6 +306,19 @@ class Ctx:
         if hits:
             self.tie_broken("obligation", pf, f"forbidden constructs in dependency cone: {hits[:5]}")
         self.cov["audited_files"] = cone
+        if not self.quick and os.environ.get("VERIF_COQCHK", "1") != "0":
+            # independent re-check of the compiled theorems and everything they depend on
+            mod = "V." + pf[:-2].replace("/", ".")
+            rc_k, out_k = sh(["timeout", "1500", "coqchk", "-silent", "-o", "-Q", ".", "V", mod], cwd=COQ, timeout=1600)
+            summ = out_k[out_k.find("CONTEXT SUMMARY"):] if "CONTEXT SUMMARY" in out_k else out_k[-600:]
+            ax = re.search(r"\* Axioms:(.*?)\n\s*\n\* ", summ, re.S)
+            axl = " ".join(ax.group(1).split()) if ax else "?"
+            unsafe = [l.strip() for l in summ.splitlines() if l.strip().startswith("* ") and "<none>" not in l
+                      and not l.strip().startswith(("* Theory", "* Axioms"))]
+            tb.append(f"coqchk -o {mod}: exit {rc_k}; axioms of the loaded libraries: {axl}; "
+                      f"type-in-type / unsafe fixpoints / assumed positivity: {unsafe or 'none'}")
+            if rc_k != 0:
+                self.tie_broken("obligation", pf, f"coqchk failed: {out_k[-600:]}")
         if not (missing_pa or bad or hits or len(results) != len(pas)):
             self.cov["discharged"] += len(thms)
             self.cov["theorems"] = self.cov.get("theorems", []) + thms
@@ -450,7 +463,8 @@ class Ctx:
             "known_findings_reported": sorted(self.known_printed),
         }
         (OUT / "evidence").mkdir(exist_ok=True)
-        (OUT / "evidence" / f"{self.pid}.json").write_text(json.dumps(ev, indent=1, default=str) + "\n")
+        ev_name = f"{self.pid}.json" if not self.replay else f"{self.pid}.replay.json"
+        (OUT / "evidence" / ev_name).write_text(json.dumps(ev, indent=1, default=str) + "\n")
         shutil.rmtree(self.scratch, ignore_errors=True)
         try:
             scratch_root().rmdir()
